@@ -571,7 +571,8 @@ Qed.
 
 Lemma reindex_map_of_rows cs ics (es : list entry) :
   NoDup (map (key_of cs ics) (map snd es)) ->
-  reindex cs ics es = map_of_rows cs ics (map snd es) /\ ksk (map fst (reindex cs ics es)).
+  reindex cs ics es = map_of_rows cs ics (map snd es) /\ ksk (map fst (reindex cs ics es)) /\
+  reindex cs ics es = isort key_cmp (keyed cs ics (map snd es)).
 Proof.
   intros ND. unfold reindex, map_of_rows. set (D := keyed cs ics (map snd es)).
   assert (NDk : NoDup (map fst D)).
@@ -585,7 +586,7 @@ Proof.
   { apply dd_id; [eapply consistent_nodup_rows; eassumption | intros r _ []]. }
   rewrite E3, fold_keyed. fold D.
   assert (S1 : ksk (map fst (isort key_cmp D))) by (apply (isort_sk key_cmp key_eq key_sym key_trans); exact NDk).
-  split; [|exact S1].
+  split; [|split; [exact S1 | reflexivity]].
   apply (canon key_cmp key_eq key_sym key_trans); [exact S1 | apply (uall_sk key_cmp key_eq key_sym key_trans); exact I |].
   intros k. rewrite (lookup_isort key_cmp key_eq _ _ NDk).
   rewrite (lookup_uall key_cmp key_eq key_sym key_trans) by exact I.
@@ -596,6 +597,11 @@ Lemma forallb_widths (rs : list row) n :
   forallb (fun r => Nat.eqb (length r) n) rs = true -> Forall (fun r => length r = n) rs.
 Proof.
   intros H. apply Forall_forall. intros r Hr. rewrite forallb_forall in H. apply Nat.eqb_eq. auto.
+Qed.
+
+Lemma abs_nobuf c f i : abs (mkT c f i []) = mkS c f i.
+Proof.
+  unfold abs, abs_ents. simpl. destruct i; simpl; [reflexivity|]. unfold unkeyed. simpl. rewrite app_nil_r. reflexivity.
 Qed.
 
 Definition step_ok (t : table) (o : op) : Prop :=
@@ -648,28 +654,25 @@ Proof.
     destruct (negb (forallb (has_col (cols t)) cs)) eqn:Ec; [simpl; auto|].
     cbn [commit_if f_index_commits all_true]. rewrite (commit_abs t Hi).
     apply negb_true_iff, (has_dup_false key_cmp key_eq) in Hd.
-    destruct (reindex_map_of_rows (cols t) cs (abs_ents t) Hd) as [E1 S1].
+    destruct (reindex_map_of_rows (cols t) cs (abs_ents t) Hd) as [E1 [S1 _]].
     cbn [fst snd committed cols frame buffer index].
     split; [reflexivity|]. split.
-    + unfold abs, abs_ents. simpl. rewrite E1. reflexivity.
-    + split; simpl; [constructor | intros _ _; exact S1].
+    + rewrite abs_nobuf, E1. reflexivity.
+    + split; cbn [cols frame index buffer]; [constructor | intros _ _; exact S1].
   - (* .rindex *)
     unfold step, sstep. change (s_index (abs t)) with (index t).
     destruct (index t) as [ics|] eqn:EI; [|simpl; auto].
     cbn [commit_if f_rindex_commits all_true]. rewrite (commit_abs t Hi).
     cbn [fst snd committed cols frame buffer index]. split; [reflexivity|]. split.
-    + unfold abs, abs_ents. simpl. unfold unkeyed at 2. simpl. rewrite app_nil_r. reflexivity.
-    + split; simpl; [constructor | discriminate].
+    + rewrite abs_nobuf. reflexivity.
+    + split; cbn [cols frame index buffer]; [constructor | discriminate].
   - (* t,"c",,vals *)
     unfold step, sstep. cbn [commit_if f_set_commits all_true]. rewrite (commit_abs t Hi).
     change (length (frame (committed t))) with (length (s_ents (abs t))).
     destruct (Nat.eqb (length vals) (length (s_ents (abs t)))) eqn:El.
     + cbn [fst snd committed cols frame buffer index]. split; [reflexivity|]. split.
-      * unfold abs at 1, abs_ents at 1. cbn [cols frame buffer index].
-        change (s_cols (abs t)) with (cols t). change (s_index (abs t)) with (index t).
-        change (s_ents (abs t)) with (abs_ents t).
-        destruct (index t); simpl; [reflexivity|]. unfold unkeyed. simpl. rewrite app_nil_r. reflexivity.
-      * split; simpl; [constructor|]. intros ics EI.
+      * rewrite abs_nobuf. reflexivity.
+      * split; cbn [cols frame buffer index]; [constructor|]. intros ics EI.
         rewrite assign_col_keys by (apply Nat.eqb_eq; exact El).
         eapply abs_ents_sorted; eauto.
     + cbn [fst snd]. split; [reflexivity|]. split; [apply abs_committed | apply inv_committed; exact Hi].
@@ -709,3 +712,181 @@ Proof. unfold abs, create, screate, abs_ents. simpl. unfold unkeyed at 2. simpl.
 Theorem refines_create fl cs rs ops : fl = all_true ->
   sdom (screate cs rs) ops = true -> run fl (create cs rs) ops = srun (screate cs rs) ops.
 Proof. intros -> Hd. rewrite <- abs_create in *. apply run_refines; [apply inv_create | exact Hd]. Qed.
+
+(* ======================================================================
+   5. consequences, stated on the spec and carried to the model by refinement
+   ====================================================================== *)
+Fixpoint remove_nth {A} (n : nat) (l : list A) : list A :=
+  match n, l with
+  | O, _ :: t => t
+  | S m, x :: t => x :: remove_nth m t
+  | _, [] => []
+  end.
+
+Fixpoint sfinal (s : sstate) (ops : list op) : sstate :=
+  match ops with [] => s | o :: r => sfinal (fst (sstep s o)) r end.
+
+Lemma srun_cons s o r : srun s (o :: r) = snd (sstep s o) :: srun (fst (sstep s o)) r.
+Proof. simpl. destruct (sstep s o). reflexivity. Qed.
+
+Lemma srun_app a : forall s b, srun s (a ++ b) = srun s a ++ srun (sfinal s a) b.
+Proof.
+  induction a as [|o a IH]; intros s b; [reflexivity|].
+  rewrite <- app_comm_cons, !srun_cons, IH. reflexivity.
+Qed.
+
+Lemma sdom_app a : forall s b, sdom s (a ++ b) = sdom s a && sdom (sfinal s a) b.
+Proof.
+  induction a as [|o a IH]; intros s b; [reflexivity|].
+  simpl. rewrite IH, andb_assoc. reflexivity.
+Qed.
+
+Lemma srun_length ops : forall s, length (srun s ops) = length ops.
+Proof. induction ops as [|o r IH]; intros s; [reflexivity|]. rewrite srun_cons. simpl. rewrite IH. reflexivity. Qed.
+
+Lemma sstep_read s o : is_read o = true -> fst (sstep s o) = s /\ op_dom s o = true.
+Proof. destruct o; simpl; try discriminate; auto. Qed.
+
+Lemma remove_nth_app {A} (a : list A) x b : remove_nth (length a) (a ++ x :: b) = a ++ b.
+Proof. induction a as [|y a IH]; simpl; [reflexivity|]. rewrite IH. reflexivity. Qed.
+
+Lemma spec_reads_invisible s pre rd post : is_read rd = true ->
+  remove_nth (length pre) (srun s (pre ++ rd :: post)) = srun s (pre ++ post) /\
+  sdom s (pre ++ rd :: post) = sdom s (pre ++ post).
+Proof.
+  intros Hr. destruct (sstep_read (sfinal s pre) rd Hr) as [Hs Hd].
+  rewrite !srun_app, !sdom_app, srun_cons. simpl. rewrite Hs, Hd. simpl. split; [|reflexivity].
+  rewrite <- (srun_length pre s) at 1. apply remove_nth_app.
+Qed.
+
+Theorem buffer_unobservable fl cs rs pre rd post : fl = all_true -> is_read rd = true ->
+  sdom (screate cs rs) (pre ++ post) = true ->
+  remove_nth (length pre) (run fl (create cs rs) (pre ++ rd :: post)) = run fl (create cs rs) (pre ++ post).
+Proof.
+  intros Hf Hr Hd. destruct (spec_reads_invisible (screate cs rs) pre rd post Hr) as [H1 H2].
+  rewrite (refines_create fl cs rs _ Hf) by (rewrite H2; exact Hd).
+  rewrite (refines_create fl cs rs _ Hf Hd). exact H1.
+Qed.
+
+(* ---- unindexed: initial rows ++ inserted rows, in order ---- *)
+Definition plain (o : op) : bool :=
+  match o with OIndex _ | ORindex | OSet _ _ => false | _ => true end.
+Definition inserted (n : nat) (o : op) : list row :=
+  match o with
+  | OInsert r => if Nat.eqb (length r) n then [r] else []
+  | OInsertB (r0 :: rs) => if Nat.eqb (length r0) n then r0 :: rs else []
+  | _ => []
+  end.
+
+Lemma s_inserts_unindexed rs : forall s, s_index s = None ->
+  fold_left s_insert rs s = mkS (s_cols s) (s_ents s ++ unkeyed rs) None.
+Proof.
+  induction rs as [|r rs IH]; intros s Hn; simpl.
+  - unfold unkeyed. simpl. rewrite app_nil_r. destruct s; simpl in *; subst; reflexivity.
+  - rewrite IH; unfold s_insert; rewrite Hn; simpl; [|reflexivity].
+    unfold unkeyed. simpl. rewrite <- app_assoc. reflexivity.
+Qed.
+
+Lemma sfinal_plain ops : forall s, s_index s = None -> forallb plain ops = true ->
+  sfinal s ops = mkS (s_cols s) (s_ents s ++ unkeyed (flat_map (inserted (length (s_cols s))) ops)) None.
+Proof.
+  induction ops as [|o ops IH]; intros s Hn Hp.
+  - simpl. unfold unkeyed. simpl. rewrite app_nil_r. destruct s; simpl in *; subst; reflexivity.
+  - simpl in Hp. apply andb_true_iff in Hp. destruct Hp as [Ho Hp]. simpl sfinal.
+    assert (Hs : fst (sstep s o) = mkS (s_cols s) (s_ents s ++ unkeyed (inserted (length (s_cols s)) o)) None).
+    { destruct o as [r|rs|c| | |cs| |c vals|q]; simpl in Ho; try discriminate; simpl;
+        try (unfold unkeyed; simpl; rewrite app_nil_r; destruct s; simpl in *; subst; reflexivity).
+      - destruct (Nat.eqb (length r) (length (s_cols s))); simpl.
+        + unfold s_insert. rewrite Hn. reflexivity.
+        + unfold unkeyed; simpl; rewrite app_nil_r; destruct s; simpl in *; subst; reflexivity.
+      - destruct rs as [|r0 rs]; simpl.
+        + unfold unkeyed; simpl; rewrite app_nil_r; destruct s; simpl in *; subst; reflexivity.
+        + destruct (Nat.eqb (length r0) (length (s_cols s))); simpl.
+          * change (fold_left s_insert rs (s_insert s r0)) with (fold_left s_insert (r0 :: rs) s).
+            rewrite s_inserts_unindexed by exact Hn. reflexivity.
+          * unfold unkeyed; simpl; rewrite app_nil_r; destruct s; simpl in *; subst; reflexivity. }
+    rewrite Hs, IH by (auto). simpl. unfold unkeyed. rewrite <- app_assoc, <- map_app. reflexivity.
+Qed.
+
+Lemma map_snd_unkeyed rs : map snd (unkeyed rs) = rs.
+Proof. unfold unkeyed. rewrite map_map. simpl. apply map_id. Qed.
+
+Theorem unindexed_order fl cs rs ops c i : fl = all_true ->
+  forallb plain ops = true -> sdom (screate cs rs) ops = true -> col_pos c cs = Some i ->
+  run fl (create cs rs) (ops ++ [ORead c]) =
+  run fl (create cs rs) ops ++ [VCells (column i (rs ++ flat_map (inserted (length cs)) ops))].
+Proof.
+  intros Hf Hp Hd Hc.
+  rewrite (refines_create fl cs rs _ Hf) by (rewrite sdom_app, Hd; reflexivity).
+  rewrite (refines_create fl cs rs _ Hf Hd).
+  rewrite srun_app. f_equal. rewrite (sfinal_plain ops (screate cs rs) eq_refl Hp).
+  simpl. rewrite Hc. unfold s_rows. simpl. rewrite map_app, !map_snd_unkeyed. reflexivity.
+Qed.
+
+(* ---- indexed: one row per key, key order, last insert wins ---- *)
+Definition sinv (s : sstate) : Prop := forall ics, s_index s = Some ics -> ksk (map fst (s_ents s)).
+
+Lemma map_of_rows_sk cs ics rs : ksk (map fst (map_of_rows cs ics rs)).
+Proof. unfold map_of_rows. rewrite fold_keyed. apply (uall_sk key_cmp key_eq key_sym key_trans). exact I. Qed.
+
+Lemma s_insert_sinv s r : sinv s -> sinv (s_insert s r).
+Proof.
+  intros Hs ics. unfold s_insert. destruct (s_index s) as [ic|] eqn:EI; simpl; [|discriminate].
+  intros _. apply (upsert_sk key_cmp key_eq key_sym key_trans). eauto.
+Qed.
+
+Lemma s_inserts_sinv rs : forall s, sinv s -> sinv (fold_left s_insert rs s).
+Proof. induction rs as [|r rs IH]; simpl; intros s Hs; [exact Hs|]. apply IH, s_insert_sinv, Hs. Qed.
+
+Lemma sstep_sinv s o : sinv s -> sinv (fst (sstep s o)).
+Proof.
+  intros Hs. destruct o as [r|rs|c| | |cs| |c vals|q]; simpl; auto.
+  - destruct (Nat.eqb (length r) (length (s_cols s))); simpl; [apply s_insert_sinv|]; exact Hs.
+  - destruct rs as [|r0 rs]; [exact Hs|].
+    destruct (Nat.eqb (length r0) (length (s_cols s))); simpl; [|exact Hs].
+    apply (s_inserts_sinv rs), s_insert_sinv, Hs.
+  - destruct (s_index s) eqn:EI; [exact Hs|].
+    destruct (negb (forallb (has_col (s_cols s)) cs)); simpl; [exact Hs|].
+    intros ics _. simpl. apply map_of_rows_sk.
+  - destruct (s_index s) eqn:EI; [|exact Hs]. intros ics. simpl. discriminate.
+  - destruct (Nat.eqb (length vals) (length (s_ents s))) eqn:El; simpl; [|exact Hs].
+    intros ics EI. simpl in *. rewrite assign_col_keys by (apply Nat.eqb_eq; exact El). eauto.
+Qed.
+
+Theorem indexed_sorted ops : forall s, sinv s -> sinv (sfinal s ops).
+Proof. induction ops as [|o ops IH]; intros s Hs; [exact Hs|]. simpl. apply IH, sstep_sinv, Hs. Qed.
+
+Theorem indexed_last_wins s ics r : s_index s = Some ics -> sinv s ->
+  let k := key_of (s_cols s) ics r in
+  lookup key_cmp k (s_ents (s_insert s r)) = Some r /\
+  (forall k', k' <> k -> lookup key_cmp k' (s_ents (s_insert s r)) = lookup key_cmp k' (s_ents s)) /\
+  NoDup (map fst (s_ents (s_insert s r))).
+Proof.
+  intros EI Hs k. unfold s_insert. rewrite EI. simpl. fold k.
+  split; [|split].
+  - rewrite (lookup_upsert key_cmp key_eq) by eauto.
+    rewrite (keqb_refl key_cmp key_eq). reflexivity.
+  - intros k' Hk. rewrite (lookup_upsert key_cmp key_eq) by eauto.
+    assert (E : keqb key_cmp k' k = false) by (apply (keqb_false key_cmp key_eq); exact Hk).
+    rewrite E. reflexivity.
+  - apply (sk_nodup key_cmp key_eq). apply (upsert_sk key_cmp key_eq key_sym key_trans). eauto.
+Qed.
+
+(* ---- index then drop index: the same rows ---- *)
+Theorem reindex_same_rows s cs : s_index s = None -> forallb (has_col (s_cols s)) cs = true ->
+  op_dom s (OIndex cs) = true ->
+  let s1 := fst (sstep s (OIndex cs)) in
+  let s2 := fst (sstep s1 ORindex) in
+  s_index s1 = Some cs /\ s_index s2 = None /\ Permutation (s_rows s2) (s_rows s) /\ Permutation (s_rows s1) (s_rows s).
+Proof.
+  intros Hn Hc Hd. simpl in Hd. rewrite Hn, Hc in Hd. simpl in Hd.
+  apply negb_true_iff, (has_dup_false key_cmp key_eq) in Hd.
+  simpl. rewrite Hn, Hc. simpl.
+  destruct (reindex_map_of_rows (s_cols s) cs (s_ents s) Hd) as [E1 [_ E2]].
+  assert (P : Permutation (map snd (map_of_rows (s_cols s) cs (s_rows s))) (s_rows s)).
+  { unfold s_rows at 1. rewrite <- E1, E2.
+    rewrite (Permutation_map snd (isort_perm key_cmp (keyed (s_cols s) cs (map snd (s_ents s))))).
+    unfold keyed. rewrite map_map. simpl. rewrite map_id. reflexivity. }
+  split; [reflexivity|]. split; [reflexivity|]. split; [|exact P].
+  unfold s_rows at 1. simpl. rewrite map_snd_unkeyed. exact P.
+Qed.
